@@ -137,8 +137,8 @@ var (
 	ciphChoices  = []string{"", "", "gcm128", "cbcgcm", "cbcgcm", "cbc"}
 	cliChoices   = []string{"", "", "", "request", "require", "require", "ca1", "ca2", "vig1"}
 
-	sniAlphabet = []string{"a.test", "A.Test", "b.a.test", "c.a.test", "c.b.a.test", "x.test", "X.TEST", "w.test", "y.w.test", "z.y.w.test", "localhost", "stray.example", "test", ""}
-	hostHeaders = []string{"a.test", "b.a.test", "c.a.test", "x.test", "w.test", "y.w.test", "localhost", "stray.example", "127.0.0.1", ""}
+	sniAlphabet = []string{"a.test", "a.test.ext", "w.test.ext", "A.Test", "b.a.test", "c.a.test", "c.b.a.test", "x.test", "X.TEST", "w.test", "y.w.test", "z.y.w.test", "localhost", "stray.example", "test", ""}
+	hostHeaders = []string{"a.test", "a.test.ext", "w.test.ext", "b.a.test", "c.a.test", "x.test", "w.test", "y.w.test", "localhost", "stray.example", "127.0.0.1", ""}
 
 	versionOffers = [][2]uint16{
 		{tls.VersionTLS10, tls.VersionTLS10}, {tls.VersionTLS10, tls.VersionTLS11}, {tls.VersionTLS11, tls.VersionTLS11},
@@ -223,6 +223,12 @@ func coreSets() []*siteSet {
 	out = append(out, mk("core", site{Host: "127.0.0.1"}, site{Host: "", Clients: "require"}, site{Host: "w.test", Clients: "request"}))
 	// same name twice (paths), compatible
 	out = append(out, mk("core", site{Host: "a.test", Clients: "require", Proto: "tls1.2"}, site{Host: "a.test", Spell: "A.test", Path: "/x", Clients: "require", Proto: "tls1.2"}, site{Host: "*.test"}))
+	// a client-auth site whose name merely begins with another site's name
+	out = append(out, mk("core", site{Host: "a.test"}, site{Host: "a.test.ext", Clients: "require"}, site{Host: "w.test", Clients: "ca1"}, site{Host: "w.test.ext"}))
+	// a named site that only exists under a path prefix, next to a client-auth catch-all:
+	// requests for that name outside the prefix belong to no site
+	out = append(out, mk("core", site{Host: "a.test", Path: "/x"}, site{Host: "", Clients: "require"}, site{Host: "w.test"}))
+	out = append(out, mk("core", site{Host: "*.a.test", Path: "/x", Proto: "tls1.2"}, site{Host: "0.0.0.0", Clients: "ca1"}))
 	// two catch-all spellings with the same settings, both orders
 	for _, cl := range []string{"require", "ca1"} {
 		out = append(out, mk("alias", site{Host: "0.0.0.0", Clients: cl}, site{Host: "", Clients: cl}, site{Host: "a.test"}))
